@@ -86,7 +86,9 @@ class Euler(Lemma):
     X_{i+1} = X_i + (sde drift + a(t_i, X_i) driver drift) dt_i + a(t_i, X_i)(dW_i + dL_i) on the driver's own time grid;
     constant a: X_T = x0 + a * Y_T; a(x) = diag(x): X_T = x0 * prod(1 + dY_i)."""
     prop = "C16"
-    cases = tuple((coef, m, n) for coef in ("Constant", "DiagX") for m, n in ((1, 1), (1, 2), (1, 3), (2, 1), (2, 2)))
+    # TimeFn: a(t, x) = G(t) and sde drift D(t), both uninterpreted functions of time: the scheme evaluates them at the LEFT
+    # end point t_i of every step
+    cases = tuple((coef, m, n) for coef in ("Constant", "DiagX") for m, n in ((1, 1), (1, 2), (1, 3), (2, 1), (2, 2))) + (("TimeFn", 1, 2), ("TimeFn", 1, 3))
 
     def __init__(self):
         self.name = "property:euler-scheme"
@@ -102,7 +104,16 @@ class Euler(Lemma):
         x0 = np.array(vc.reals("x0", m), dtype=object)
         drift = vc.reals("driver_drift", m)
         c = vc.real("a_constant")
-        a_obj = vc.new(LD + "Constant", m, m, c) if coef == "Constant" else vc.new(LD + "DiagX", m)
+        G = z3.Function("coefficient_at_time", z3.RealSort(), z3.RealSort())
+        D = z3.Function("sde_drift_at_time", z3.RealSort(), z3.RealSort())
+        Gs = lambda t_: Sym(G(as_real_term(lift(t_))), "r")
+        Ds = lambda t_: Sym(D(as_real_term(lift(t_))), "r")
+        if coef == "TimeFn":
+            a_obj = it.lib.Model(lambda i_, t_, x_: np.array([[Gs(t_)]], dtype=object), "a(t, x) = G(t)")
+            it.hooks[LD + "LevyDrivenSDEModel.drift"] = lambda i_, f, b: np.array([[Ds(b["t"])]], dtype=object)
+        else:
+            a_obj = vc.new(LD + "Constant", m, m, c) if coef == "Constant" else vc.new(LD + "DiagX", m)
+        x0_before = list(x0)
         model = vc.obj(LD + "LevyDrivenSDEModel", x0=x0, a=a_obj, _m=m, _d=m)
         path = vc.new("rpylib.montecarlo.path:StochasticJumpPath", np.array(ts, dtype=object), W, Lp)
         mc_drift = drift[0] if m == 1 else np.array(drift, dtype=object).reshape(m, 1)
@@ -127,16 +138,25 @@ class Euler(Lemma):
             for r in range(m):
                 if coef == "Constant":
                     row = [c] * m
+                elif coef == "TimeFn":
+                    row = [Gs(ts[i])]
                 else:
                     row = [cur[r] if k == r else 0 for k in range(m)]
                 inc = sum((row[k] * (drift[k] * dt + (W[k, i + 1] - W[k, i]) + (Lp[k, i + 1] - Lp[k, i])) for k in range(m)), 0)
+                if coef == "TimeFn":
+                    inc = inc + Ds(ts[i]) * dt
                 nxt.append(cur[r] + inc)         # sde drift of LevyDrivenSDEModel is 0
             X.append(nxt)
         ok_shape = isinstance(val, np.ndarray) and val.shape == (m, n + 1)
         vc.check(nm + "::path-shape", ok_shape)
         if not ok_shape:
             return
-        vc.check(nm + "::euler-recursion-on-the-driver's-grid", And(*[x0[r] + val[r, i] == X[i][r] for r in range(m) for i in range(n + 1)]))
+        vc.check(nm + "::euler-recursion-on-the-driver's-grid", And(*[x0_before[r] + val[r, i] == X[i][r] for r in range(m) for i in range(n + 1)]))
+        x0_after = list(np.ravel(np.asarray(model.fields["x0"], dtype=object)))
+        vc.check(nm + "::the-model's-initial-value-is-untouched", len(x0_after) == m and And(*[compare(x0_after[r], x0_before[r], "==") for r in range(m)]))
+        if coef == "TimeFn":
+            return
+        x0 = np.array(x0_before, dtype=object)
         YT = [drift[k] * (ts[n] - ts[0]) + (W[k, n] - W[k, 0]) + (Lp[k, n] - Lp[k, 0]) for k in range(m)]
         if coef == "Constant":
             vc.check(nm + "::constant-coefficient-gives-x0-plus-a-times-driver", And(*[x0[r] + val[r, n] == x0[r] + c * sum(YT, 0) for r in range(m)]))
@@ -163,20 +183,24 @@ class Euler(Lemma):
         Lp[:, 0] = 0
         x0 = np.arange(1.0, m + 1.0)
         drift = 0.05 * np.arange(1, m + 1)
-        a = Constant(m, m, 0.7) if coef == "Constant" else DiagX(m)
+        gt = lambda t: 0.4 + 0.3 * t
+        a = Constant(m, m, 0.7) if coef == "Constant" else (DiagX(m) if coef == "DiagX" else (lambda t, x: np.array([[gt(t)]])))
         proc = MarkovChainSDE.__new__(MarkovChainSDE)
-        proc.model = SimpleNamespace(x0=x0, a=a, dimension=lambda: m, drift=lambda t, x: np.zeros_like(x))
+        x0_kept = x0.copy()
+        proc.model = SimpleNamespace(x0=x0, a=a, dimension=lambda: m, drift=lambda t, x: np.zeros_like(x), x0_value=lambda: x0)
         mc_drift = drift[0] if m == 1 else drift.reshape(m, 1)
         proc.markov_chain = SimpleNamespace(simulate_one_path=lambda: StochasticJumpPath(ts, W, Lp), process_drift=lambda: mc_drift)
         try:
             val = proc.simulate_one_path().value()
         except Exception as e:
             return (True, {"coefficient": coef, "m": m, "steps": n, "exception": f"{type(e).__name__}: {e}"})
-        X = x0.copy()
+        X = x0_kept.copy()
         for i in range(n):
             dY = drift * (ts[i + 1] - ts[i]) + (W[:, i + 1] - W[:, i]) + (Lp[:, i + 1] - Lp[:, i])
-            X = X + (0.7 * dY.sum() if coef == "Constant" else X * dY)
-        got = x0 + np.asarray(val)[:, -1] if np.asarray(val).shape == (m, n + 1) else None
+            X = X + (0.7 * dY.sum() if coef == "Constant" else (X * dY if coef == "DiagX" else gt(ts[i]) * dY))
+        got = x0_kept + np.asarray(val)[:, -1] if np.asarray(val).shape == (m, n + 1) else None
+        if "untouched" in clause:
+            return (not np.allclose(x0, x0_kept), {"coefficient": coef, "m": m, "steps": n, "x0_before": x0_kept.tolist(), "x0_after_one_path": np.asarray(x0).tolist()})
         return (got is None or not np.allclose(got, X), {"coefficient": coef, "m": m, "steps": n, "native_X_T": None if got is None else got.tolist(), "euler_X_T": X.tolist()})
 
 
